@@ -3,6 +3,7 @@ import sys, os, json, time, random, collections, re
 import infra
 from infra import V, parse_out
 import props
+import special
 
 TRUSTED_BASE = [
     'Coq 8.16.1 kernel and coqc (vm_compute used in finite-table lemmas and examples; no native_compute)',
@@ -126,26 +127,56 @@ def shrink_note(c):
     return dict(input=c['text'], line=c['line'], impl=c.get('impl', '')[:2000], model=c.get('model', '')[:2000])
 
 
-def run_check(pid, prop, tier, seed):
-    t0 = time.time()
-    if prop.special:
-        return prop.special(pid, prop, tier, seed)
+def collect_generic(pid, prop, tier, seed, b):
+    """generic driver-based exploration: returns (cases, impl_lines, failures, disagreements)"""
     rng = random.Random(seed * 1000003 + int(pid[1:]))
-    b = infra.build()
-    hyg = infra.hygiene()
-    ps = infra.proof_status(pid)
-    # corpus first
     cases = []
     cdir = '%s/corpus/%s' % (V, pid)
-    if os.path.isdir(cdir):
+    if os.path.isdir(cdir) and hasattr(prop, 'corpus_case'):
         for fn in sorted(os.listdir(cdir)):
             for ln in open(os.path.join(cdir, fn)):
                 ln = ln.rstrip('\n')
                 if ln and not ln.startswith('#'):
-                    cases.append(dict(line=ln, text='corpus:' + ln[:80], shape='corpus', meta=None, nontrivial=True,
-                                      args=[], op=ln.split(' ')[0], corpus=True))
-    gen = prop.cases(rng, tier)
-    cases = [c for c in cases if c['meta'] is not None] + gen
+                    cases.append(prop.corpus_case(ln))
+    cases += prop.cases(rng, tier)
+    failures, disagreements, impl = [], [], []
+    have_drivers = os.path.exists(V + '/bin/godriver') and os.path.exists(V + '/bin/mldriver') and b.go_ok
+    if have_drivers:
+        impl, model = run_cases(prop, cases)
+        failures, disagreements = evaluate(prop, cases, impl, model)
+        if prop.extra_lines:
+            raw = getattr(prop, 'raw_oracle', False)
+            ex_cases, ex_lines = [], []
+            for c, il in zip(cases, impl):
+                el = prop.extra_lines(c, il if raw else parse_out(il))
+                if el:
+                    ex_cases.append((c, len(ex_lines), len(el)))
+                    ex_lines += el
+            ex_impl = infra.run_driver(V + '/bin/godriver', ex_lines)
+            for c, off, n in ex_cases:
+                f = prop.extra_oracle(c, c['impl'] if raw else parse_out(c['impl']),
+                                      ex_impl[off:off + n] if raw else [parse_out(x) for x in ex_impl[off:off + n]])
+                if f:
+                    failures.append((c, f))
+        if prop.group_oracle:
+            failures += prop.group_oracle(cases)
+    return cases, impl, failures, disagreements
+
+
+def run_check(pid, prop, tier, seed):
+    t0 = time.time()
+    b = infra.build()
+    hyg = infra.hygiene()
+    ps = infra.proof_status(pid)
+    extra_cov = {}
+    if prop.special:
+        cases, impl, failures, disagreements, extra_cov = prop.special(pid, prop, tier, seed, b)
+    else:
+        cases, impl, failures, disagreements = collect_generic(pid, prop, tier, seed, b)
+    return finish(pid, prop, tier, seed, t0, b, hyg, ps, cases, impl, failures, disagreements, extra_cov)
+
+
+def finish(pid, prop, tier, seed, t0, b, hyg, ps, cases, impl, failures, disagreements, extra_cov):
     problems = []          # (kind, text) that break the proof / the tie
     if not b.gen_ok:
         problems.append(('translator', b.gen_msg))
@@ -155,30 +186,10 @@ def run_check(pid, prop, tier, seed):
         problems.append(('coq-build', 'files that no longer compile: %s\n%s' % (', '.join(b.failed_files), b.make_msg[-1200:])))
     if hyg:
         problems.append(('hygiene', '; '.join(hyg)))
-    if not ps['ok']:
+    if prop.level == 'proof' and not ps['ok']:
         problems.append(('proof', ps['msg']))
-    failures, disagreements = [], []
-    impl = model = []
-    have_drivers = os.path.exists(V + '/bin/godriver') and os.path.exists(V + '/bin/mldriver') and b.go_ok
-    if have_drivers:
-        impl, model = run_cases(prop, cases)
-        failures, disagreements = evaluate(prop, cases, impl, model)
-        if prop.extra_lines:
-            ex_cases, ex_lines = [], []
-            for c, il in zip(cases, impl):
-                el = prop.extra_lines(c, il if getattr(prop, 'raw_oracle', False) else parse_out(il))
-                if el:
-                    ex_cases.append((c, len(ex_lines), len(el)))
-                    ex_lines += el
-            ex_impl = infra.run_driver(V + '/bin/godriver', ex_lines)
-            raw = getattr(prop, 'raw_oracle', False)
-            for c, off, n in ex_cases:
-                f = prop.extra_oracle(c, c['impl'] if raw else parse_out(c['impl']),
-                                      ex_impl[off:off + n] if raw else [parse_out(x) for x in ex_impl[off:off + n]])
-                if f:
-                    failures.append((c, f))
-        if prop.group_oracle:
-            failures += prop.group_oracle(cases)
+    for k, t in extra_cov.pop('problems', []):
+        problems.append((k, t))
     # known findings
     findings = infra.load_findings()
     known_hits = collections.OrderedDict()
@@ -193,7 +204,6 @@ def run_check(pid, prop, tier, seed):
             known_hits.setdefault(hit['id'], (hit, c))
         else:
             new_failures.append((c, f))
-    # disagreements on inputs that are known findings are explained by them only if the oracle also failed there
     failing_lines = set(c['line'] for c, _ in failures)
     pure_disagreements = [(c, d) for c, d in disagreements if c['line'] not in failing_lines]
     for hid, (kf, c) in known_hits.items():
@@ -231,26 +241,24 @@ def run_check(pid, prop, tier, seed):
     distinct = len(set(c['line'] for c in cases if c.get('nontrivial', True)))
     statuses = collections.Counter(x.split(' ')[0] for x in impl)
     samples = [dict(input=c['text'][:200], impl=c.get('impl', '')[:300]) for c in cases[:: max(1, len(cases) // 6)][:6]]
-    ev = dict(
-        property_id=pid, tier=tier, seed=seed, level=prop.level,
-        coverage=dict(
-            obligations=len(ps['theorems']), discharged=len(ps['closed']) if ps['ok'] else 0,
-            checker_cmd='make -C /verif/coq (coq_makefile, full .vo) + coqc Properties/%s.v with Print Assumptions' % pid,
-            trusted_base=TRUSTED_BASE,
-            theorems=ps['theorems'], axioms=ps['open'], examples=ps['examples'],
-            evaluations=len(cases), distinct_nontrivial=distinct,
-            rule=prop.rule or 'generated by lib/props.py from seed; distinct protocol lines whose generator marks them non-trivial',
-            samples=samples, input_distribution=dict(shapes), impl_status=dict(statuses),
-            disagreements_checked=len(cases), disagreements=len(pure_disagreements),
-            known_findings_reproduced=list(known_hits.keys()),
-            partial=prop.partial,
-        ),
-        assumptions=TRUSTED_BASE,
-        wall_s=round(time.time() - t0, 2), violations=violations)
-    if ev['coverage']['discharged'] < 1 or ev['coverage']['obligations'] < 1:
+    cov = dict(
+        obligations=len(ps['theorems']), discharged=len(ps['closed']) if ps['ok'] else 0,
+        checker_cmd='make -C /verif/coq (coq_makefile, full .vo) + coqc Properties/%s.v with Print Assumptions' % pid,
+        trusted_base=TRUSTED_BASE,
+        theorems=ps['theorems'], axioms=ps['open'], examples=ps['examples'],
+        evaluations=len(cases), distinct_nontrivial=distinct,
+        rule=prop.rule or 'generated by lib/props.py from seed; distinct protocol lines whose generator marks them non-trivial',
+        samples=samples, input_distribution=dict(shapes), impl_status=dict(statuses),
+        programs=max(1, len(cases)), disagreements_checked=len(cases), disagreements=len(pure_disagreements),
+        known_findings_reproduced=list(known_hits.keys()),
+        partial=prop.partial)
+    cov.update(extra_cov)
+    if cov['discharged'] < 1 or cov['obligations'] < 1:
         # the schema's proof keys require >= 1; a run in which the theorems do not check reports them under other names
-        ev['coverage']['obligations_found'] = ev['coverage'].pop('obligations')
-        ev['coverage']['discharged_now'] = ev['coverage'].pop('discharged')
+        cov['obligations_found'] = cov.pop('obligations')
+        cov['discharged_now'] = cov.pop('discharged')
+    ev = dict(property_id=pid, tier=tier, seed=seed, level=prop.level, coverage=cov,
+              assumptions=TRUSTED_BASE, wall_s=round(time.time() - t0, 2), violations=violations)
     infra.write_evidence(pid, ev)
     print('%s %s: %d theorems (%s), %d cases, %d oracle failures (%d known), %d disagreements, %.1fs' % (
         pid, tier, len(ps['theorems']), 'all closed' if ps['ok'] else 'NOT OK', len(cases), len(failures),
@@ -324,3 +332,7 @@ register(Prop('C14', 'huge ranges answered arithmetically', props.c14_cases, pro
 register(_raw(Prop('C15', 'no input crashes the API; IsFrameRange = parser', props.c15_cases, props.c15_oracle,
               partial='Format with arbitrary templates and stdlib internals are outside the model',
               rule='mutated grammar-derived byte strings (numbers capped at 4 digits) through 8 entry points')))
+
+register(Prop('C18', 'seqinfo reports the library parse', None, None, special=special.c18_special,
+              partial='JSON well-formedness and the printers are observed, not proved; --format goes through text/template (the reformatted string is taken from the library)',
+              rule='invocations of the built seqinfo binary: 1..64 patterns incl. duplicates/malformed, args vs stdin, option subsets, each run twice'))
